@@ -34,16 +34,18 @@ Parents  == Excluded \cup Markers \cup Plain
 Cwds      == {"root", "parent", "inside", "else", "checkout", "other"}
 \* mixedAbsRel: two path arguments in one invocation - the project directory spelled absolutely and its (empty)
 \* sub-directory spelled relatively from outside the project
-Spellings == {"absolute", "dot", "dotslash", "relative", "trailing", "dotdot", "mixedAbsRel"}
+\* subdirAbs: not the project directory but its sub-directory srcx is the target (absolute spelling); the reference is the
+\* same target under the reference placement
+Spellings == {"absolute", "dot", "dotslash", "relative", "trailing", "dotdot", "mixedAbsRel", "subdirAbs"}
 
 \* which spellings make sense from which cwd, and whether the spelled path mentions <parent>
-Valid(c, s) == CASE c = "root"     -> s \in {"absolute", "dot", "dotslash", "dotdot"}
+Valid(c, s) == CASE c = "root"     -> s \in {"absolute", "dot", "dotslash", "dotdot", "subdirAbs"}
                  [] c = "parent"   -> s \in {"absolute", "relative", "dotslash", "trailing", "mixedAbsRel"}
                  [] c = "inside"   -> s \in {"absolute", "dotdot"}
-                 [] c = "else"     -> s \in {"absolute", "dotdot", "mixedAbsRel"}
+                 [] c = "else"     -> s \in {"absolute", "dotdot", "mixedAbsRel", "subdirAbs"}
                  [] c = "checkout" -> s \in {"absolute", "dotdot", "mixedAbsRel"}
                  [] c = "other"    -> s \in {"absolute", "dotdot"}
-MentionsParent(c, s) == \/ s \in {"absolute", "mixedAbsRel"}
+MentionsParent(c, s) == \/ s \in {"absolute", "mixedAbsRel", "subdirAbs"}
                         \/ (c \in {"else", "checkout", "other"} /\ s = "dotdot")
                         \/ (c = "root" /\ s = "dotdot")
 
